@@ -66,7 +66,17 @@ def model(shape, dt, data, yf, myf, lim, prog, scen):
     elif shape == "flowout":
         P += [dict(p1, name="drv", fmt="probability", targ=True, min=lo, max=hi, myf=myf), dict(name="inc", fmt=None, fn="a:b*2"), dict(name="inc2", fmt=None, fn="inc+b:c")]
     spec["links"].append(["a", "b", "drv"])
-    if prog:
+    if prog == "base" and shape != "flowout":
+        # the program targets the data parameter at the BOTTOM of the dependency chain: everything above it must follow in the same step
+        for q in P:
+            if q["name"] == "p1":
+                q["targ"] = True
+        spec["progs"] = dict(
+            progs=[dict(name="P1", pops=list(spec["pops"]), comps=["a"], spend=400.0, uc=10.0, oneoff=False)],
+            covouts=[dict(par="p1", pop=p, base=0.15, progs={"P1": 0.45}) for p in spec["pops"]],
+            instr=dict(start=S0 + 2),
+        )
+    elif prog:
         spec["progs"] = dict(
             progs=[dict(name="P1", pops=list(spec["pops"]), comps=["a"], spend=400.0, uc=10.0, oneoff=False)],
             covouts=[dict(par="drv", pop=p, base=0.1 * dt, progs={"P1": 0.9 * dt}) for p in spec["pops"]],
@@ -87,7 +97,9 @@ def cases(tier):
     yfs = [1.0, 0.5] if tier == "quick" else [1.0, 0.5, 2.0]
     dts = [1.0, 0.25] if tier == "quick" else [1.0, 0.25, 0.5, 1 / 12]
     scens = [None, ("data", "linear"), ("data", "previous"), ("fn", "linear")] + ([("fn", "previous")] if tier == "thorough" else [])
-    for shape, dt, data, yf, myf, lim, prog, scen in itertools.product(shapes, dts, DATA, yfs, [1.0, 1.5], LIMITS, [False, True], scens):
+    for shape, dt, data, yf, myf, lim, prog, scen in itertools.product(shapes, dts, DATA, yfs, [1.0, 1.5], LIMITS, [False, True, "base"], scens):
+        if prog == "base" and (scen is not None or (tier == "quick" and (lim not in ("none", "both") or data == "outside"))):
+            continue
         if tier == "quick" and dt == 0.25 and (data in ("one",) or myf != 1.0):
             continue
         spec = model(shape, dt, data, yf, myf, lim, prog, scen)
